@@ -9,7 +9,7 @@ vars == <<ph, ty, val, mode>>
 Init == ph = "ty" /\ ty = "p_u8" /\ val = [k |-> "unit"] /\ mode = "ref"
 Next == \/ ph = "ty" /\ ty' \in SNames /\ ph' = "val" /\ UNCHANGED <<val, mode>>
         \/ ph = "val" /\ val' \in SVals(STable[ty]) /\ ph' = "mode" /\ UNCHANGED <<ty, mode>>
-        \/ ph = "mode" /\ mode' \in Modes /\ ph' = "done" /\ UNCHANGED <<ty, val>>
+        \/ ph = "mode" /\ mode' \in Modes \cup {"allindef"} /\ ph' = "done" /\ UNCHANGED <<ty, val>>
 D == STable[ty]
 Ref == SerEnc(D, val)
 Bytes == SerEncM(D, val, mode)
@@ -17,8 +17,8 @@ Emit == (ph' = "done") =>
    LET b == SerEncM(D, val, mode')  r == SerEnc(D, val) IN
    (mode' = "ref" \/ b # r) =>          \* a mode that changes nothing for this value is the reference case again
    PrintT(<<"CASE", ToJson([fam |-> "serde", name |-> ty, in |-> [bytes |-> b, mode |-> mode'],
-                            exp |-> [dec |-> val, pos |-> Len(b), reenc |-> r]])>>)
+                            exp |-> [dec |-> val, pos |-> Len(b), reenc |-> r, must |-> (mode' # "allindef")]])>>)
 RefWellFormed == ph = "done" => WellFormedItem(Bytes)
 RefPreferred  == (ph = "done" /\ mode = "ref" /\ ~HasIndef(Bytes, 0)) => IsPreferred(Bytes)
-SameItem      == (ph = "done" /\ mode \in {"wide", "indef"}) => Tree(Bytes) = Tree(Ref)
+SameItem      == (ph = "done" /\ mode \in {"wide", "indef", "allindef"}) => Tree(Bytes) = Tree(Ref)
 =============================================================================
